@@ -160,8 +160,8 @@ Print Assumptions no_silent_passthrough_partial.
 
 (* The tree under test has the repair 006e33c (table obligation on the regenerated [head_cfg]; a regression to the old
    shape breaks it, and the streams -- edit class (f), the lowerer-trace oracle -- then find the concrete `that`). *)
-Theorem c10_head_cfg_is_repaired : head_cfg = mkCfg true true false false.
-Proof. vm_compute. reflexivity. Qed.
+Theorem c10_head_cfg_is_repaired : cfg_that_rejected head_cfg = true /\ cfg_parent_walk head_cfg = true.
+Proof. vm_compute. auto. Qed.
 Print Assumptions c10_head_cfg_is_repaired.
 
 (* FULL STRENGTH at the head configuration: no identifier, qualified or not, in any scope, reaches SQL unresolved *)
